@@ -25,7 +25,10 @@ CP_POOL = ["go", "GO", "Go", "a", "b", "ab", "", "http", "https", "x", "y", "che
 ROOTS = ["http://a/", "http://a.org/x", "h", "GO:", "urn:x:", "https://b.org/", "http://purl.obolibrary.org/obo/",
          "é://ü/", "ftp://f/", "_:", "#", "/", "http", "go", "a"]
 EXT = ["a", "b", "/", "_", "#", "B", "obo/", "GO_", "1", "é", ":", "x/y", "A", " ", "://", "."]
-IDENTS = ["", "1", "0000001", "a/b", "x:y", "é", " ", "#f", "a b", "GO_1", "1/2/3", "::", ":", "/", "_", "𝔘", "a\nb", "\t", "x|y", "-"]
+IDENTS = ["", "1", "0000001", "a/b", "x:y", "é", " ", "#f", "a b", "GO_1", "1/2/3", "::", ":", "/", "_", "𝔘", "a\nb", "\t", "x|y", "-",
+          "C[N+](C)[O-]", "x[", "]y", "[1]", "(2)", "<3>", "'q'", "\"q\""]
+# characters a "tolerant" parser might trim from the ends of its input: a string is a string, they are part of it
+EDGE_CHARS = ["[", "]", "(", ")", "<", ">", "{", "}", "\"", "'", " ", "\n", "\t", "\u00a0"]
 
 
 def uri_family(rng: random.Random, n: int) -> list[str]:
@@ -169,6 +172,11 @@ def gen_strings(rng: random.Random, recs, d: str, n: int, weights=(4, 4, 2)):
             s = p + d + rng.choice(IDENTS)
         else:
             s = rng.choice(["", d, "nodelim", " ", d + d, "a" + d, d + "a", "\n", "http://unknown/x", rng.choice(CP_POOL)])
+        if rng.random() < 0.1:
+            # the same string with something at its ends (safe-CURIE brackets, quotes, angle brackets, white space)
+            e = rng.choice(EDGE_CHARS)
+            close = {"[": "]", "(": ")", "<": ">", "{": "}"}.get(e, e)
+            s = rng.choice([e + s, s + e, e + s + close, s + close])
         out.append(s)
     return list(dict.fromkeys(out))
 
